@@ -82,11 +82,12 @@ fn main() {
     let mut n = 0u64;
     exhaustive_register(nth, len, &mut |h| {
         n += 1;
-        emit_history(&mut out, &init, h, 3, "x-");
+        // thorough: the 5-event layer goes through the sequential-consistency tester only (C08 covers the other)
+        emit_history(&mut out, &init, h, if h.len() >= 5 { 2 } else { 3 }, "x-");
         if n % 5000 == 1 { out.sample(&format!("exhaustive: (reg 0) {}", calls_sx::<Register<u8>>(h))); }
     });
-    seeded(&mut out, &mut r, arg_u64("--n", if th { 150_000 } else { 8_000 }) as usize, 3);
-    let forks = arg_u64("--forks", if th { 30_000 } else { 2_000 });
+    seeded(&mut out, &mut r, arg_u64("--n", if th { 80_000 } else { 8_000 }) as usize, 3);
+    let forks = arg_u64("--forks", if th { 15_000 } else { 2_000 });
     for i in 0..forks {
         match i % 3 {
             0 => { let v = r.below(3) as u8; fork_case(&mut out, &mut r, &Register(v)) }
